@@ -832,12 +832,14 @@ fn c29_main(args: &Args) -> i32 {
         cfg.rrdp_fallback = match row["policy"].as_str().unwrap() {
             "never" => FallbackPolicy::Never, "stale" => FallbackPolicy::Stale, "new" => FallbackPolicy::New, p => panic!("policy {p}"),
         };
-        if outcome == "stale" {
+        let copy = row["copy"].as_str().unwrap();
+        if copy == "expired" {
             cfg.refresh = std::time::Duration::from_secs(1);
             cfg.rrdp_fallback_time = std::time::Duration::from_secs(0);
         }
+        let _ = &outcome;
         let mut ok = true;
-        if outcome == "current" || outcome == "stale" {
+        if copy != "none" {
             // a successful update leaves a local copy (always with RRDP on and a CA announcing RRDP)
             let mut prime = cfg.clone();
             prime.disable_rrdp = false;
@@ -951,21 +953,39 @@ fn c29_case(case: &FbCase) -> Report {
     // was the local state produced?
     let now = chrono::Utc::now().timestamp();
     let local = rig.read_archive();
-    let produced = case.ok && match outcome {
-        "updated" | "unavailable" => local.is_none(),
+    let copy = row["copy"].as_str().unwrap();
+    let result = row["result"].as_str().unwrap();
+    let produced = case.ok && match copy {
+        "none" => local.is_none(),
         "current" => local.as_ref().map(|l| l.best_before > now + 60).unwrap_or(false),
-        "stale" => local.as_ref().map(|l| l.best_before < now).unwrap_or(false),
+        "expired" => local.as_ref().map(|l| l.best_before < now).unwrap_or(false),
         _ => false,
     };
     if !produced {
         rep.add_note(C29, "unrealised_rows", 1);
-        rep.divergence(C29, format!("row {row}: local state for outcome {outcome} not produced (copy {:?}, now {now})",
+        rep.divergence(C29, format!("row {row}: local state {copy} not produced (copy {:?}, now {now})",
             local.as_ref().map(|l| (l.serial, l.best_before))));
         return rep
     }
-    if outcome != "updated" {
-        rig.srv.set_faults(FaultPlan { notify_status: Some(500), ..Default::default() });
-    }
+    // how this run's update goes (Fallback.tla, Results)
+    let base = rig.srv.rsync_base();
+    let two: Objects = [(format!("{base}o1.roa"), Bytes::from_static(b"object one")),
+                        (format!("{base}o2.roa"), Bytes::from_static(b"object two"))].into_iter().collect();
+    let plan = match (result, copy) {
+        ("ok", "none") => FaultPlan::default(),
+        // on top of a copy: one delta to apply
+        ("ok", _) => { rig.srv.publish(two); FaultPlan::default() }
+        ("delta_fails", _) => {
+            let idx = rig.srv.publish(two);
+            FaultPlan { delta: Some((rig.srv.version(idx).serial, FileFault::Http(404))), ..Default::default() }
+        }
+        ("notify_fails", _) => FaultPlan { notify_status: Some(500), ..Default::default() },
+        // a good notification; the snapshot it needs fails (with a copy: a new session, so that no delta can be tried)
+        ("snapshot_fails", "none") => FaultPlan { snapshot: FileFault::Http(404), ..Default::default() },
+        ("snapshot_fails", _) => { rig.srv.new_session(1, two); FaultPlan { snapshot: FileFault::Http(404), ..Default::default() } }
+        x => panic!("row {x:?}"),
+    };
+    rig.srv.set_faults(plan.clone());
     rig.bed.take_rsync_log();
     rig.srv.take_log();
     let collector = rig.collector(&case.cfg);
@@ -984,7 +1004,7 @@ fn c29_case(case: &FbCase) -> Report {
     let rrdp_asked = !http_log.is_empty();
     let observed = json!({"decision": decision, "rsync_log": rsync_log, "rrdp_requests": http_log.iter().map(|q| format!("{:?}:{}", q.kind, q.status)).collect::<Vec<_>>(),
                           "local_copy": local.as_ref().map(|l| json!({"serial": l.serial, "best_before_minus_now": l.best_before - now}))});
-    let sig = format!("policy-{}/{}/rrdp-{}/rsync-{}/notify-{}", row["policy"].as_str().unwrap(), outcome,
+    let sig = format!("policy-{}/{}-{}/rrdp-{}/rsync-{}/notify-{}", row["policy"].as_str().unwrap(), copy, result,
         if rrdp_on { "on" } else { "off" }, if rsync_on { "on" } else { "off" }, if notify { "yes" } else { "no" });
     rep.eval(C29);
     rep.trace(C29);
@@ -1004,9 +1024,7 @@ fn c29_case(case: &FbCase) -> Report {
     if notify && rrdp_on && outcome != "updated" { rep.sample(C29, json!({"row": row, "observed": observed})); }
     // thorough: a second run in which two CAs of the same repository are looked up by two threads at once
     if let Some(ca2) = case.ca2.as_ref() {
-        if outcome != "updated" {
-            rig.srv.set_faults(FaultPlan { notify_status: Some(500), ..Default::default() });
-        }
+        rig.srv.set_faults(plan.clone());
         let run = collector.start();
         let decide = |ca: &Arc<CaCert>| -> &'static str {
             match run.repository(ca) {
